@@ -24,8 +24,8 @@ theorem async_decode_never_leaks {σ : Type} (R : Rd σ) (d : Doc) (n : String) 
 
 /-- Full statement (false of the code as it is, see `list_arm_leaks`): the synchronous decoders never leak.
 Proved (`_partial`): they never leak for documents in which every list has elements that own nothing
-(scalars, uuids — `ownsNothing_scalar`), for every type, input, protocol reader and budget: the list arm is
-the ONLY place where a failing decode can leave something unreachable. -/
+(scalars, uuids — `ownsNothing_scalar`) and cannot end in an empty `binary` (`TailFree`), for every type, input,
+protocol reader and budget: the list arm is the ONLY place where a failing decode can leave something unreachable. -/
 theorem sync_no_leak_partial {σ : Type} (R : Rd σ) (d : Doc) (hd : DocSafe d) (f : Nat) (ty : STy) (hs : ListSafe d ty)
     (s : σ) (l : Nat) (h : decTyL R d true f ty s = .err l) : l = 0 :=
   (no_leak_sync_all R d hd f).1 ty s l hs h
@@ -41,9 +41,9 @@ example : DocSafe safeDoc := by
     subst h
     simp at hfl
     rcases hfl with rfl | rfl | rfl
-    · exact ⟨ownsNothing_scalar _ _ (by simp), trivial⟩
+    · exact ⟨ownsNothing_scalar _ _ (by simp), trivial, trivial⟩
     · trivial
-    · exact ⟨trivial, ownsNothing_scalar _ _ (by simp), trivial⟩
+    · exact ⟨trivial, ownsNothing_scalar _ _ (by simp), trivial, trivial⟩
   · intro n vs h; simp only [safeDoc, Doc.find, List.find?] at h; split at h <;> simp at h
   · intro n t h; simp only [safeDoc, Doc.find, List.find?] at h; split at h <;> simp at h
 
@@ -62,6 +62,13 @@ def leakInput : Bytes :=
 
 theorem list_arm_leaks :
     leakOf (decodeL (binRd .be (some skipDepth)) leakDoc true "S" leakInput) = some 1 := by decide
+
+/-- An element that owns no byte can still pin the input: an EMPTY binary read when nothing is left in the buffer is
+handed the buffer's own handle by `Bytes::split_to` (found by T1 at the thorough tier, cut 12 of `list<binary>["", ..]`). -/
+def emptyTailInput : Bytes := [15, 0, 1,  11, 0, 0, 0, 2,   0, 0, 0, 0]     -- list<binary>["", <missing>]
+theorem empty_binary_at_end_pins_buffer :
+    leakOf (decodeL (binRd .be (some skipDepth)) leakDoc true "S" emptyTailInput) = some 1 ∧
+    leakOf (decodeL (binRd .be (some skipDepth)) leakDoc true "S" (emptyTailInput ++ [0])) = some 0 := by decide
 
 /-- …and the same input through the asynchronous template leaks nothing. -/
 theorem list_arm_async_clean :
